@@ -57,18 +57,25 @@ fn go<T: Scalar, const D: usize>(out: &mut Outcome<T>) {
     }
     let dab = va.dot(&vb);
     let dba = vb.dot(&va);
-    out.prove("dot(a,b) = ((0+a0*b0)+a1*b1)+...", dab, Rel::Eq, spec);
-    out.prove("dot(b,a) = ((0+b0*a0)+b1*a1)+...", dba, Rel::Eq, spec_ba);
+    // the products are abstracted (local cuts P / R / S): what is decided is the order of the additions; a different
+    // accumulation order gives a quick `sat` whose replay draws the components natively
+    for i in 0..D {
+        out.cut_local(a[i] * b[i], format!("P{}", i));
+        out.cut_local(b[i] * a[i], format!("R{}", i));
+        out.cut_local(a[i] * a[i], format!("S{}", i));
+    }
+    out.prove_cuts("dot(a,b) = ((0+a0*b0)+a1*b1)+...", dab, Rel::Eq, spec, &["P"]);
+    out.prove_cuts("dot(b,a) = ((0+b0*a0)+b1*a1)+...", dba, Rel::Eq, spec_ba, &["R"]);
     out.prove("squared(a) = dot(a,a)", va.squared(), Rel::Eq, va.dot(&va));
-    out.prove("squared(a) = ((0+a0*a0)+...)", va.squared(), Rel::Eq, spec_sq);
+    out.prove_cuts("squared(a) = ((0+a0*a0)+...)", va.squared(), Rel::Eq, spec_sq, &["S"]);
     // symmetry: IEEE multiplication is commutative; each product is abstracted to one shared variable
     // (justified by the bit-precise goal a_i*b_i = b_i*a_i), then the two sums are the same term
     for i in 0..D {
         out.prove(format!("a{}*b{} = b{}*a{} (IEEE)", i, i, i, i), a[i] * b[i], Rel::Eq, b[i] * a[i]);
-        out.cut_local(a[i] * b[i], format!("P{}", i));
-        out.cut_local(b[i] * a[i], format!("P{}", i));
+        out.cut_local(a[i] * b[i], format!("C{}", i));
+        out.cut_local(b[i] * a[i], format!("C{}", i));
     }
-    out.prove_cuts("dot(a,b) = dot(b,a)", dab, Rel::Eq, dba, &["P"]);
+    out.prove_cuts("dot(a,b) = dot(b,a)", dab, Rel::Eq, dba, &["C"]);
     out.twin_opaque("twin: (a+b)[0] = a0", sum[0], Rel::Eq, a[0]);
 }
 
